@@ -1,0 +1,30 @@
+//go:build verif
+
+package j5schema
+
+import "sync/atomic"
+
+// verifhook marks the points at which SchemaCache touches state shared between
+// callers. With the build tag 'verif' a test harness may install a function
+// which is called at each point (to park the calling goroutine and so force a
+// chosen interleaving); without an installed function At does nothing.
+type verifhookT struct{}
+
+var verifhook verifhookT
+
+var verifhookFn atomic.Pointer[func(site string)]
+
+func (verifhookT) At(site string) {
+	if fn := verifhookFn.Load(); fn != nil {
+		(*fn)(site)
+	}
+}
+
+// SetVerifHook installs fn as the function called at every hook point, nil removes it.
+func SetVerifHook(fn func(site string)) {
+	if fn == nil {
+		verifhookFn.Store(nil)
+		return
+	}
+	verifhookFn.Store(&fn)
+}
